@@ -103,3 +103,28 @@ fn c13_hms() {
     assert!(NaiveTime::parse_from_str(buf.as_str(), "%H:%M:%S") == Ok(t));
     kani::cover!(leap);
 }
+
+// @ob tier=extra timeout=3600 mem=16
+// @desc item-level format/parse inverse for %G-W%V-%u over ALL ISO week dates incl. negative and five/six-digit ISO years (the writer prints an explicit sign outside 0..=9999, the reader must accept it): the real writer's text for [IsoYear, "-W", IsoWeek, "-", WeekdayFromMon] parses back (format::parse + Parsed::to_naive_date) to the same date
+// @bounds all dates; items concrete; text <= 14 bytes
+// @funcs DelayedFormat::write_to, format_numeric (IsoYear, IsoWeek, WeekdayFromMon), write_year / write_n, format::parse / parse_internal, scan::number, Parsed::{set_isoyear, set_isoweek, set_weekday, to_naive_date}
+#[kani::proof]
+#[kani::unwind(16)]
+fn c13_items_iso_week_date() {
+    use chrono::format::{parse, Item, Numeric, Pad, Parsed};
+    let d = any_date();
+    let items = [
+        Item::Numeric(Numeric::IsoYear, Pad::Zero),
+        Item::Literal("-W"),
+        Item::Numeric(Numeric::IsoWeek, Pad::Zero),
+        Item::Literal("-"),
+        Item::Numeric(Numeric::WeekdayFromMon, Pad::Zero),
+    ];
+    let mut buf = Buf::<14>::new();
+    assert!(d.format_with_items(items.iter()).write_to(&mut buf).is_ok() && !buf.overflow);
+    let mut p = Parsed::new();
+    assert!(parse(&mut p, buf.as_str(), items.iter()).is_ok());
+    assert!(p.to_naive_date() == Ok(d));
+    kani::cover!(d.iso_week().year() < 0);
+    kani::cover!(d.iso_week().year() > 9999);
+}
